@@ -33,6 +33,8 @@ pub enum CK {
     W(u8, bool),
     /// oneway call that the service answers with a stream: gets nothing, the connection carries on
     Ow,
+    /// plain call of about 350 bytes: does not fit the initial receive buffer
+    B,
 }
 
 #[derive(Clone, Debug)]
@@ -50,10 +52,15 @@ pub fn call_spec(kind: CK, id: u32) -> CallSpec {
         CK::Of => json!({"oneway": true, "method": "t.Fail", "parameters": {"n": id}}),
         CK::W(..) => json!({"method": "t.Watch", "parameters": {"k": id}, "more": true}),
         CK::Ow => json!({"method": "t.Watch", "parameters": {"k": id}, "oneway": true}),
+        CK::B => json!({"method": "t.Plain", "parameters": {"n": id, "tag": big_tag(id)}}),
     };
     let mut frame = serde_json::to_vec(&v).unwrap();
     frame.push(0);
     CallSpec { kind, id, frame }
+}
+
+fn big_tag(id: u32) -> String {
+    format!("big-{id}-{}", "\u{e4}bcdefghi".repeat(30))
 }
 
 fn norm(mut v: Value) -> Value {
@@ -68,6 +75,7 @@ fn expected_reply(c: &CallSpec) -> Option<Value> {
     match c.kind {
         CK::P => Some(json!({"parameters": {"n": c.id, "tag": format!("t\u{e4}g-{}", c.id)}})),
         CK::F => Some(json!({"error": "t.Failed", "parameters": {"n": c.id}})),
+        CK::B => Some(json!({"parameters": {"n": c.id, "tag": big_tag(c.id)}})),
         CK::O | CK::Of | CK::W(..) | CK::Ow => None,
     }
 }
@@ -232,7 +240,7 @@ impl<'a> Sim<'a> {
             let Some(c) = self.conns[i].queue.pop_front() else { break };
             let conn = &mut self.conns[i];
             match c.kind {
-                CK::P | CK::O => conn.handled.push((c.id, 'P', matches!(c.kind, CK::O))),
+                CK::P | CK::O | CK::B => conn.handled.push((c.id, 'P', matches!(c.kind, CK::O))),
                 CK::F | CK::Of => conn.handled.push((c.id, 'F', matches!(c.kind, CK::Of))),
                 CK::W(..) => conn.handled.push((c.id, 'W', false)),
                 CK::Ow => conn.handled.push((c.id, 'W', true)),
@@ -629,6 +637,7 @@ pub fn ck_name(k: &CK) -> String {
         CK::Of => "Of".into(),
         CK::W(n, e) => format!("W{n}{}", if *e { "e" } else { "o" }),
         CK::Ow => "Ow".into(),
+        CK::B => "B".into(),
     }
 }
 pub fn ck_parse(s: &str) -> CK {
@@ -638,6 +647,7 @@ pub fn ck_parse(s: &str) -> CK {
         "F" => CK::F,
         "Of" => CK::Of,
         "Ow" => CK::Ow,
+        "B" => CK::B,
         w => CK::W(w[1..2].parse().unwrap(), w.ends_with('e')),
     }
 }
@@ -836,7 +846,7 @@ fn singles() -> Vec<Vec<CK>> {
 
 pub fn run_c08(tier: Tier) -> i32 {
     let mut bursts = singles();
-    bursts.extend([vec![CK::P, CK::P], vec![CK::O, CK::P], vec![CK::P, CK::F], vec![CK::F, CK::O, CK::P], vec![CK::Ow, CK::P]]);
+    bursts.extend([vec![CK::P, CK::P], vec![CK::O, CK::P], vec![CK::P, CK::F], vec![CK::F, CK::O, CK::P], vec![CK::Ow, CK::P], vec![CK::P, CK::B, CK::P]]);
     let mk = |mc, calls, ev, cuts, sr, dp| ScenCfg { prop: "C08".into(), max_conns: mc, max_calls: calls, max_events: ev, bursts: bursts.clone(), faults: vec![], max_faults: 0, closes: false, cuts, short_reads: sr, delay_polls: dp, write_fault_on_stream: false };
     let plan = match tier {
         Tier::Quick => vec![("3conns/5calls/8events", mk(3, 5, 8, false, false, false), 0), ("2conns/4calls/6events+dev", mk(2, 4, 6, true, true, true), 2), ("3conns/4calls/7events+dev", mk(3, 4, 7, true, true, true), 1)],
@@ -880,6 +890,7 @@ pub fn run_c10(tier: Tier) -> i32 {
         vec![CK::W(1, true), CK::P],
         vec![CK::P, CK::W(2, true), CK::F],
         vec![CK::W(1, true), CK::W(1, true)],
+        vec![CK::B, CK::W(1, true), CK::B],
     ];
     let mk = |mc, calls, ev, faults: Vec<Fault>, cuts, dp| ScenCfg { prop: "C10".into(), max_conns: mc, max_calls: calls, max_events: ev, bursts: bursts.clone(), faults: faults.clone(), max_faults: if faults.is_empty() { 0 } else { 1 }, closes: false, cuts, short_reads: cuts, delay_polls: dp, write_fault_on_stream: true };
     // three streams open at once need three connections: a phase with streaming calls only
